@@ -251,8 +251,28 @@ def F17():
     return None
 
 
+def F18():
+    # naming one held card twice in a discard must be refused by query, verifier and operation alike, state untouched
+    from pokerkit import NoLimitDeuceToSevenLowballSingleDraw
+    s = NoLimitDeuceToSevenLowballSingleDraw.create_state(
+        (A.ANTE_POSTING, A.BET_COLLECTION, A.BLIND_OR_STRADDLE_POSTING, A.CARD_BURNING, A.HOLE_DEALING), True, 0, (1, 2), 2,
+        (100, 100), 2)
+    s.check_or_call(); s.check_or_call()
+    i = s.stander_pat_or_discarder_index
+    c = s.hole_cards[i][0]
+    if s.can_stand_pat_or_discard((c, c)):
+        before = list(s.hole_cards[i])
+        try:
+            s.stand_pat_or_discard((c, c))
+        except ValueError as e:
+            return (f'can_stand_pat_or_discard(({c!r}, {c!r})) is True, the operation raises {e!r} and leaves the hand '
+                    f'{s.hole_cards[i]} (was {before}), discards {s.discarded_cards}')
+        return 'a card was discarded twice'
+    return None
+
+
 if __name__ == '__main__':
-    names = sys.argv[1:] or ['F1', 'F2', 'F3', 'F4', 'F5', 'F6', 'F7', 'F8', 'F9', 'F10', 'F14', 'F15', 'F16', 'F17']
+    names = sys.argv[1:] or ['F1', 'F2', 'F3', 'F4', 'F5', 'F6', 'F7', 'F8', 'F9', 'F10', 'F14', 'F15', 'F16', 'F17', 'F18']
     bad = 0
     for n in names:
         try:
